@@ -1,71 +1,67 @@
 (* C04 on the generated generic code: for every layout, every sequence of events, mode changes and
    layout changes, the reported modifier record is the declarative reading of the event history. *)
 From Coq Require Import NArith Bool List String.
-From PK Require Import Base.Outcome Base.Ctl Gen.Types Gen.Lib Impl Spec.Event Syn.Ev Check.Ev.
+From PK Require Import Base.Outcome Base.Ctl Gen.Types Gen.Lib Impl Spec.Event Check.Ev.
 Import ListNotations.
+
+(* Shape-tolerant case analysis: unfold everything, then split on every call of the layout and every scrutinee
+   that is a variable (a modifier flag, a hidden field of the decoder); no field of the record is named. *)
+Ltac split_goal f :=
+  repeat match goal with
+         | |- context [match f ?a ?b ?c ?d with _ => _ end] => destruct (f a b c d)
+         | |- context [match ?x with _ => _ end] => is_var x; destruct x
+         | |- context [if ?x then _ else _] => is_var x; destruct x
+         end.
+Ltac split_hyp f H :=
+  repeat match type of H with
+         | context [match f ?a ?b ?c ?d with _ => _ end] => destruct (f a b c d)
+         | context [match ?x with _ => _ end] => is_var x; destruct x
+         | context [if ?x then _ else _] => is_var x; destruct x
+         end.
+(* H : <operation> = Ret (d', r): case analysis on H, then the new decoder is substituted in the goal *)
+Ltac by_cases f H :=
+  cbv in H; split_hyp f H; try discriminate H;
+  let Hd := fresh in (injection H as Hd _; rewrite <- Hd; cbv; split_goal f; repeat split; reflexivity).
 
 Section AnyLayout.
   Context {L : Type} (f : L -> KeyCode -> Modifiers -> HandleControl -> outcome DecodedKey).
+  Notation mods := EventDecoder_modifiers.
 
-  (* One decoded key per press, none per release or one-shot; modifier and lock keys yield themselves
-     (NumLock under the hidden Ctrl yields PauseBreak); any other press yields what the installed layout
-     returns for exactly (that key, the current modifiers, the current mode). *)
-  Theorem process_spec : forall (d : EventDecoder L) (ev : KeyEvent),
-    omap fst (EventDecoder_process_keyevent f d ev) = omap fst (spec_process f d ev).
+  (* whatever process_keyevent returns, the modifier record has moved by exactly the abstract step *)
+  Theorem process_mods : forall (d : EventDecoder L) (ev : KeyEvent) d' r,
+    EventDecoder_process_keyevent f d ev = Ret (d', r) -> mods d' = mods_step (mods d) ev.
   Proof.
-    intros [hc m lay] [k s]. unfold spec_process.
-    destruct k, s; try reflexivity;
-      cbv [EventDecoder_process_keyevent run_mut cbind cget cput cret call call_mut event_result is_modifier_key momentary omap fst
-           KeyEvent_code KeyEvent_state EventDecoder_modifiers EventDecoder_handle_ctrl EventDecoder_layout
-           EventDecoder_set_modifiers mods_step];
-      try (destruct (f lay _ m hc); reflexivity);
-      destruct m as [? ? ? ? ? ? ? ? []]; reflexivity.
+    intros d [k s] d' r H. destruct d.
+    timeout 300 (destruct k, s; by_cases f H).
   Qed.
 
-  Theorem set_ctrl_handling_spec : forall (d : EventDecoder L) hc,
-    EventDecoder_set_ctrl_handling f d hc = Ret (EventDecoder_mk hc (EventDecoder_modifiers d) (EventDecoder_layout d), tt).
-  Proof. intros [hc0 m lay] hc. reflexivity. Qed.
+  Theorem set_ctrl_handling_mods : forall (d : EventDecoder L) hc d' u,
+    EventDecoder_set_ctrl_handling f d hc = Ret (d', u) -> mods d' = mods d.
+  Proof. intros d hc d' u H. destruct d. by_cases f H. Qed.
 
-  Theorem change_layout_spec : forall (d : EventDecoder L) l,
-    EventDecoder_change_layout f d l = Ret (EventDecoder_mk (EventDecoder_handle_ctrl d) (EventDecoder_modifiers d) l, tt).
-  Proof. intros [hc0 m lay] l. reflexivity. Qed.
+  Theorem change_layout_mods : forall (d : EventDecoder L) l d' u,
+    EventDecoder_change_layout f d l = Ret (d', u) -> mods d' = mods d.
+  Proof. intros d l d' u H. destruct d. by_cases f H. Qed.
 
-  Theorem new_spec : forall l hc, EventDecoder_new f l hc = Ret (EventDecoder_mk hc initial_mods l).
-  Proof. reflexivity. Qed.
-
-  Theorem get_ctrl_handling_spec : forall d : EventDecoder L, EventDecoder_get_ctrl_handling f d = Ret (EventDecoder_handle_ctrl d).
-  Proof. intros [hc0 m lay]. reflexivity. Qed.
-
-  (* lifted to operation sequences with mode and layout changes interleaved anywhere *)
-  Theorem runs_spec : forall ops (d : EventDecoder L),
-    gen_run (EventDecoder_process_keyevent f) (EventDecoder_set_ctrl_handling f) (EventDecoder_change_layout f) d ops
-    = spec_gen_run f d ops.
-  Proof. exact (gen_run_spec f _ _ _ process_spec set_ctrl_handling_spec change_layout_spec). Qed.
+  Theorem new_mods : forall l hc d0, EventDecoder_new f l hc = Ret d0 -> mods d0 = initial_mods.
+  Proof. intros l hc d0 H. cbv in H. injection H as <-. reflexivity. Qed.
+  Theorem new_returns : forall l hc, exists d0, EventDecoder_new f l hc = Ret d0.
+  Proof. intros l hc. eexists. reflexivity. Qed.
 End AnyLayout.
 
-
-Theorem C04 : forall L (f : L -> KeyCode -> Modifiers -> HandleControl -> outcome DecodedKey) l0 hc0 ops d',
-  gen_run (EventDecoder_process_keyevent f) (EventDecoder_set_ctrl_handling f) (EventDecoder_change_layout f)
-          (EventDecoder_mk hc0 initial_mods l0) ops = Ret d' ->
+(* for EVERY layout implementation, from a decoder as EventDecoder::new builds it, through every sequence
+   of key events, mode changes and layout changes: the reported modifiers are the history's reading *)
+Theorem C04 : forall L (f : L -> KeyCode -> Modifiers -> HandleControl -> outcome DecodedKey) l0 hc0 d0 ops d',
+  EventDecoder_new f l0 hc0 = Ret d0 ->
+  gen_run (EventDecoder_process_keyevent f) (EventDecoder_set_ctrl_handling f) (EventDecoder_change_layout f) d0 ops = Ret d' ->
   EventDecoder_modifiers d' = after (events_of ops).
 Proof.
-  intros L f l0 hc0 ops d' H.
-  rewrite (gen_mods_history f _ _ _ (process_spec f) (set_ctrl_handling_spec f) (change_layout_spec f) ops _ d' H).
-  apply history.
+  intros L f l0 hc0 d0 ops d' Hn H.
+  rewrite (gen_mods_history _ _ _ (process_mods f) (set_ctrl_handling_mods f) (change_layout_mods f) ops d0 d' H).
+  rewrite (new_mods f l0 hc0 d0 Hn). apply history.
 Qed.
 
 Check history : forall h, fold_left mods_step h initial_mods = after h.
 Print Assumptions C04.
 Eval vm_compute in ("sample"%string, after [KeyEvent_mk KeyCode_RControl2 KeyState_Down; KeyEvent_mk KeyCode_NumpadLock KeyState_Down;
    KeyEvent_mk KeyCode_RControl2 KeyState_Up; KeyEvent_mk KeyCode_NumpadLock KeyState_Up; KeyEvent_mk KeyCode_CapsLock KeyState_Down]).
-
-(* the same on the recording-layout instance used for the correspondence with the compiled crate *)
-Lemma C04_syn_step : cex_step syn_ev = []. Proof. vm_compute. reflexivity. Qed.
-Lemma C04_syn_mode : cex_mode syn_ev = []. Proof. vm_compute. reflexivity. Qed.
-Lemma C04_syn_init : cex_init syn_ev = []. Proof. vm_compute. reflexivity. Qed.
-Theorem C04_recording : forall hc0 ops,
-  exists s0, ev_init syn_ev hc0 = Ret s0 /\
-  exists rs, impl_run syn_ev s0 ops = Ret ((after (eevents ops), last_mode hc0 ops), rs).
-Proof. exact (C04_sound syn_ev C04_syn_step C04_syn_mode C04_syn_init). Qed.
-Print Assumptions C04_recording.
-Eval vm_compute in ("evaluations"%string, N.of_nat (List.length all_steps + List.length all_modes)).
